@@ -134,7 +134,7 @@ pub fn run(thorough: bool) -> Vec<Part> {
         cfg.max_fds_per_read = 2;
         cfg.max_pending_fds = 4;
         cfg.eof = true;
-        cfg.empty_reads = false;
+        cfg.empty_reads = true;
         cfg.judge_errors = false;
         let limits = Limits { max_states: 6_000_000, max_secs: if thorough { 3000.0 } else { 120.0 }, ..Default::default() };
         let st = bfs(&cfg, &limits, workers());
